@@ -62,6 +62,10 @@ func (e *verifE1) Drain(resolve bool) bool {
 	return e.drain(resolve, func(string) { e.checkStep() })
 }
 func (e *verifE1) Reconnect(label string) bool { return e.reconnect(label, false) }
+func (e *verifE1) SetFailOnlyFate(v bool) { e.failOnlyFate = v }
+func (e *verifE1) ShapeNonOpener(wantMsat uint64) bool {
+	return e.shapeNonOpener(lnwire.MilliSatoshi(wantMsat))
+}
 func (e *verifE1) Params() VerifE1Params       { return e.p }
 func (e *verifE1) Trace() []string             { return e.trace }
 func (e *verifE1) Signature() string           { return e.signature() }
